@@ -542,6 +542,42 @@ impl Space for Padded {
     }
 }
 
+/// Needed files without any version (vn_cnt = 0) around the one that carries the versions.
+struct Sparse;
+const SPARSE_K: [usize; 8] = [1, 2, 3, 4, 5, 8, 16, 40];
+impl Space for Sparse {
+    fn name(&self) -> String {
+        "sparse requirement lists: k needed files with vn_cnt = 0 (k in {1,2,3,4,5,8,16,40}) and one file with 1-2 versions placed first / in the middle / last, 1 definition; 5 layouts x 4 encodings; via SymbolVersionTable::new, ElfBytes and ElfStream".into()
+    }
+    fn size(&self) -> u64 {
+        8 * 3 * 5 * 4
+    }
+    fn describe(&self, idx: u64) -> Value {
+        let d = unmix(idx, &[8, 3, 5, 4]);
+        json!({"empty_needed_files": SPARSE_K[d[0] as usize], "position_of_the_versioned_file": d[1], "layout": format!("{:?}", LAYOUTS[d[2] as usize]), "encoding": ENCS[d[3] as usize].name()})
+    }
+    fn run(&self, idx: u64, out: &mut Outcome) {
+        let d = unmix(idx, &[8, 3, 5, 4]);
+        let k = SPARSE_K[d[0] as usize];
+        let pos = [0, k / 2, k][d[1] as usize];
+        let lay = LAYOUTS[d[2] as usize];
+        let enc = ENCS[d[3] as usize];
+        let mut aux: Vec<usize> = vec![0; k];
+        aux.insert(pos, 1 + (k % 2));
+        let m = make_model(&(aux, vec![1]), 0);
+        let s = sections(&m, enc, lay, lay, true);
+        let ctx = format!("{} {} empty needed files, versioned file at position {}, layout {:?}", enc.name(), k, pos, lay);
+        let mut dig = Fnv::new();
+        let mut r = judge("SymbolVersionTable::new", &ctx, &m, via_new(&m, &s, enc), out, &mut dig);
+        let bytes = file_image(&m, &s, enc, 0, true);
+        r += judge("ElfBytes::symbol_version_table", &ctx, &m, via_file(&m, &bytes), out, &mut dig);
+        r += judge("ElfStream::symbol_version_table", &ctx, &m, via_stream(&m, &bytes), out, &mut dig);
+        if r > 0 {
+            out.nontrivial(dig.get() ^ idx);
+        }
+    }
+}
+
 /// Record iterators started at a non-zero offset inside their bytes.
 pub struct Displaced;
 const DISP_K: [usize; 8] = [1, 2, 4, 16, 20, 28, 33, 4096];
@@ -579,7 +615,7 @@ pub fn build(tier: Tier) -> CheckDef {
         level: "model_checking",
         rule: "complete enumeration of small version models (every shape of needed files/aux and definitions/names up to the bound, index assignments, record layouts incl. non-contiguous and interleaved, separate string tables, section orders) built by the reference builder; every symbol index 0..n+2 is queried for its requirement and definition through three access paths and compared with the model's ground truth (file, name, hash, flags, ordered names, hidden bit). non-trivial = model for which at least one record is returned".into(),
         assumptions: vec!["record layouts are forward-linked (next/aux offsets are unsigned)".into()],
-        spaces: vec![Box::new(Models { maxf: f, maxa: a, maxd: d }), Box::new(Big), Box::new(VersymDomain), Box::new(Padded), Box::new(Displaced)],
+        spaces: vec![Box::new(Models { maxf: f, maxa: a, maxd: d }), Box::new(Big), Box::new(VersymDomain), Box::new(Padded), Box::new(Displaced), Box::new(Sparse)],
         abort_is_violation: false,
         hang_is_violation: true,
         exhaustive: true,
